@@ -24,34 +24,61 @@ RULE = ("one run = one of three arms on four replicas (vlevel 0-3); distinct = d
         "outcome vector) tuples x state digest")
 PROBES = ["arm_history", "arm_corrupt", "arm_assign", "corrupt_accepted_somewhere", "corrupt_rejected_somewhere",
           "invalid_assignment", "valid_assignment", "surfaced_at_write", "surfaced_at_validate", "repaired",
-          "repeated_header_tag"]
+          "repeated_header_tag", "custom_taglike"]
 
 ASSIGN = {
     # datatype: (valid python values, invalid python values)
-    "i": ([5, -3, "12"], ["a b", {"__t": "float", "v": 2.5}, [1]]),
-    "f": ([{"__t": "float", "v": 1.5}, 3, "1e5"], ["x", {"__t": "float", "v": "nan"}, [1]]),
-    "Z": (["abc", "a b:c"], ["a\tb", 5, ""]),
-    "A": (["c", "!"], ["cc", 1, ""]),
-    "J": ([{"a": 1}, [1, "x"], '{"k": 2}'], ["{", 5]),
-    "H": ([{"__t": "bytearray", "v": [1, 2]}, "0AFF"], ["0a", "XYZ", "ABC", {"__t": "bytearray", "v": []}]),
-    "B": ([[1, 2], {"__t": "floatlist", "v": [1.5]}, "C,1,2"], [[1, 2.5], [2 ** 40], "C,300", "c,1,", 7]),
+    "i": ([5, -3, "12"], ["a b", {"__t": "float", "v": 2.5}, [1], {"__t": "bool", "v": True}, "12\n"]),
+    "f": ([{"__t": "float", "v": 1.5}, 3, "1e5"], ["x", {"__t": "float", "v": "nan"}, [1], {"__t": "bool", "v": False},
+                                                   "1e999", "1.5\n"]),
+    "Z": (["abc", "a b:c"], ["a\tb", 5, "", "abc\n"]),
+    "A": (["c", "!"], ["cc", 1, "", "c\n"]),
+    "J": ([{"a": 1}, [1, "x"], '{"k": 2}'], ["{", 5, "1", "null", "[NaN]", '"abc"']),
+    "H": ([{"__t": "bytearray", "v": [1, 2]}, "0AFF"], ["0a", "XYZ", "ABC", {"__t": "bytearray", "v": []}, "0A\n"]),
+    "B": ([[1, 2], {"__t": "floatlist", "v": [1.5]}, "C,1,2"],
+          [[1, 2.5], [2 ** 40], "C,300", "c,1,", 7, {"__t": "numarray", "v": []}, {"__t": "floatlist", "v": ["nan"]},
+           {"__t": "boollist", "v": [True, False]}, "f,1e999", {"__t": "floatlist", "v": ["inf", 1.0]}]),
 }
 
 
 # positional (non-reference) fields: (record type, version) -> field -> (valid, invalid)
 POSASSIGN = {
-    ("S", "gfa1"): {"sequence": (["ACGT", "*", "acgtN"], ["AC GT", "1*", "A\tC"])},
-    ("S", "gfa2"): {"sequence": (["ACGT", "*"], ["AC GT", "A\tC"]), "slen": ([7, "12"], ["x", "1 2", "-"])},
-    ("G", "gfa2"): {"disp": ([10, "-4"], ["x", "1.5"]), "var": ([3, "*"], ["x", "1.5"])},
-    ("F", "gfa2"): {"f_beg": ([0, "3"], ["x", "-1"]), "alignment": (["*", "3M"], ["3Q", "M", "1,x"])},
-    ("L", "gfa1"): {"overlap": (["3M", "*"], ["3Q", "M3"]), "from_orient": (["+", "-"], ["x", "++"])},
-    ("C", "gfa1"): {"pos": ([3, "0"], ["x", "-1"]), "overlap": (["3M", "*"], ["3Q"])},
-    ("E", "gfa2"): {"alignment": (["*", "3M", "1,2"], ["3Q", "M"]), "beg1": ([0, "0"], ["x", "$"])},
+    ("S", "gfa1"): {"sequence": (["ACGT", "*", "acgtN"], ["AC GT", "1*", "A\tC", "ACGT\n"]),
+                    "name": (["nn1"], ["x\n", "a b", ""])},
+    ("S", "gfa2"): {"sequence": (["ACGT", "*"], ["AC GT", "A\tC"]),
+                    "slen": ([7, "12"], ["x", "1 2", "-", {"__t": "bool", "v": True}, "4\n"])},
+    ("G", "gfa2"): {"disp": ([10, "-4"], ["x", "1.5", {"__t": "bool", "v": True}]), "var": ([3, "*"], ["x", "1.5"])},
+    ("F", "gfa2"): {"f_beg": ([0, "3"], ["x", "-1", {"__t": "bool", "v": True}]),
+                    "alignment": (["*", "3M"], ["3Q", "M", "1,x"])},
+    ("L", "gfa1"): {"overlap": (["3M", "*", {"__t": "cigar", "v": "2M1I", "version": "gfa1"}], ["3Q", "M3", "4M\n"]),
+                    "from_orient": (["+", "-"], ["x", "++"])},
+    ("C", "gfa1"): {"pos": ([3, "0"], ["x", "-1", {"__t": "float", "v": 1.5}, {"__t": "bool", "v": True}]),
+                    "overlap": (["3M", "*"], ["3Q"])},
+    ("E", "gfa2"): {"alignment": (["*", "3M", "1,2", {"__t": "cigar", "v": "2M1D", "version": "gfa2"}],
+                                  ["3Q", "M", {"__t": "cigar", "v": "4S", "version": "gfa1"},
+                                   {"__t": "cigar", "v": "2M1N", "version": "gfa1"}]),
+                    "beg1": ([0, "0"], ["x", "$", {"__t": "bool", "v": False}])},
+    ("P", "gfa1"): {"overlaps": (["*", {"__t": "placeholder"}, {"__t": "alnplaceholder"}], ["3Q", "4M,,4M"]),
+                    "segment_names": (["nn1+,nn2-"], [{"__t": "emptylist"}, "a+,+,b+", "a+,=b+"])},
 }
 
 
 def pyval(v):
     from .c20 import pyval as pv
+    if isinstance(v, dict) and "__t" in v:
+        t = v["__t"]
+        if t == "bool":
+            return bool(v["v"])
+        if t == "boollist":
+            return [bool(x) for x in v["v"]]
+        if t == "cigar":
+            return gfapy.Alignment(v["v"], version=v["version"], valid=True)
+        if t == "placeholder":
+            return gfapy.Placeholder()
+        if t == "alnplaceholder":
+            return gfapy.AlignmentPlaceholder()
+        if t == "emptylist":
+            return []
     return pv(v)
 
 
@@ -65,6 +92,15 @@ def gen(streams, tier, i):
             t = cfg.choice(["xx:i:1", "xx:Z:a", "xx:J:[1]"])
             for _ in range(3):
                 scn["ops"].insert(1, {"op": "add", "line": "H\t" + t, "as": "str"})
+        if scn["cfg"].get("version") == "gfa2" and cfg.random() < 0.3:
+            # custom records whose trailing fields look like tags without being valid ones: which fields are
+            # tags must not depend on the level
+            for _ in range(cfg.randint(1, 2)):
+                ln = cfg.choice(["XQ\ta\txx:J:{bad", "XQ\ta\txx:H:1a", "XQ\txx:i:1\txx:i:2", "XQ\tb\tyy:B:c,\tzz:i:5",
+                                 "XQ\tc\tzz:f:1e999", "XQ\tzz:Z:ok\tb", "XQ\td\txx:i:1\tyy:i:x\tzz:i:3",
+                                 "XQ\txx:A:ab\txx:A:c"])
+                scn["ops"].insert(cfg.randint(1, len(scn["ops"])), {"op": "add", "line": ln, "as": "str"})
+            scn["cfg"]["custom_taglike"] = True
         scn["cfg"]["arm"] = arm
         return scn
     k = G.swarm_knobs(cfg)
@@ -123,13 +159,15 @@ def run_history(scn, st):
     hdr = sum(1 for op in scn["ops"] if op["op"] == "add" and op["line"].startswith("H\txx:"))
     if hdr >= 3:
         st.count("probe.repeated_header_tag")
+    if scn["cfg"].get("custom_taglike"):
+        st.count("probe.custom_taglike")
     from ..model import Doc
     m = Doc(version)
     for n, op in enumerate(scn["ops"]):
         outs = []
         if op["op"] not in ("new",):
             # the text model only tells where the history leaves the specified ground
-            if op["op"] == "add" and op["line"].startswith("H\txx:"):
+            if op["op"] == "add" and (op["line"].startswith("H\txx:") or op["line"].startswith("XQ\t")):
                 pass
             else:
                 c05.model_apply(m, op, core.Stats())
@@ -288,7 +326,9 @@ def run_assign(scn, st):
             if not a.ok:
                 # reported at the assignment; the previous state must be intact (no value stored)
                 continue
-            for _ in range(op["reads"]):
+            # (level 0 parses a stored string leniently when it is read -- int('12\n') is 12 -- so a read may turn
+            # an invalid text into a valid value; reads before the validation are made at levels >= 1 or for objects)
+            for _ in range(op["reads"] if (lvl > 0 or not isinstance(x, str)) else 0):
                 core.call(line.get, tag)
             if lvl == 2:
                 f = core.call(line.field_to_s, tag, True)
@@ -335,7 +375,7 @@ def posassign(reps, op, version, st):
         table = POSASSIGN[(src.record_type, version)]
         field = sorted(table)[op["fi"] % len(table)]
         pool = table[field][0 if op["valid"] else 1]
-        x = pool[op["vi"] % len(pool)]
+        x = pyval(pool[op["vi"] % len(pool)])
         oo = core.call(gfapy.Line, ob.line_text(src), vlevel=lvl, version=version)
         if not oo.ok:
             return
@@ -361,7 +401,7 @@ def posassign(reps, op, version, st):
                                  (src.record_type, field, x), dtype=field, level=3)
         if not a.ok:
             continue
-        for _ in range(op["reads"]):
+        for _ in range(op["reads"] if (lvl > 0 or not isinstance(x, str)) else 0):
             core.call(line.get, field)
         if lvl == 2:
             f = core.call(line.field_to_s, field)
